@@ -11,6 +11,15 @@ package c15
 import (
 	"bufio"
 	"bytes"
+	"crypto/ecdsa"
+	"crypto/elliptic"
+	crand "crypto/rand"
+	"crypto/x509"
+	"crypto/x509/pkix"
+	"encoding/pem"
+	"math/big"
+	"path/filepath"
+	"sync"
 	"crypto/sha256"
 	"encoding/base64"
 	"encoding/hex"
@@ -616,6 +625,7 @@ func TestConfig(t *testing.T) {
 		nsettings += len(names)
 		perSection[sec.name] = len(names)
 		var kept, swallowed []caseInfo
+		var pathSets []pathSetting
 
 		for _, name := range names {
 			path := settings[name]
@@ -656,6 +666,9 @@ func TestConfig(t *testing.T) {
 			}
 			for _, k := range kinds {
 				for _, class := range classes[k] {
+					if strings.HasPrefix(class, "path-") {
+						continue // exercised by pathCases through a Manager with a base directory
+					}
 					for _, scope := range []string{"alone", "manager", "env"} {
 						if only != "" && only != strings.Join([]string{sec.name, name, class, scope}, "/") {
 							continue
@@ -672,6 +685,9 @@ func TestConfig(t *testing.T) {
 						}
 					}
 				}
+			}
+			if (kind == "string" || kind == "") && isPathName(path[len(path)-1]) {
+				pathSets = append(pathSets, pathSetting{name: name, path: path, skind: skind, defVal: defVal, hasDef: hasDef})
 			}
 			if only == "" {
 				if in := r.hiddenCase(sec, name, path, save0, full, kind); in != nil {
@@ -698,6 +714,7 @@ func TestConfig(t *testing.T) {
 				}
 			}
 			r.rejectCases(sec, raw0)
+			r.pathCases(sec, pathSets, save0, full)
 		}
 	}
 	if only == "" {
@@ -1047,6 +1064,176 @@ func (r *run) subsetCases(full tree, save0s map[string]tree, injs map[string][]*
 		nm += len(k)
 	}
 	r.res.Set("markers_in_full_file", nm)
+}
+
+type pathSetting struct {
+	name   string
+	path   []string
+	skind  string
+	defVal interface{}
+	hasDef bool
+}
+
+func isPathName(key string) bool {
+	for _, t := range strings.Split(key, "_") {
+		switch t {
+		case "file", "folder", "dir", "path":
+			return true
+		}
+	}
+	return false
+}
+
+var pemOnce struct {
+	sync.Once
+	pem []byte
+}
+
+// certAndKeyPEM: a self-signed certificate and its key in ONE PEM file (tls.LoadX509KeyPair skips the blocks it
+// does not look for), so that the same file is acceptable wherever the loader wants a certificate or a key.
+func certAndKeyPEM() []byte {
+	pemOnce.Do(func() {
+		key, err := ecdsa.GenerateKey(elliptic.P256(), crand.Reader)
+		if err != nil {
+			return
+		}
+		tpl := &x509.Certificate{SerialNumber: big.NewInt(15), Subject: pkix.Name{CommonName: "verif-c15"},
+			NotBefore: time.Now().Add(-time.Hour), NotAfter: time.Now().Add(24 * time.Hour),
+			KeyUsage: x509.KeyUsageDigitalSignature, ExtKeyUsage: []x509.ExtKeyUsage{x509.ExtKeyUsageServerAuth}}
+		der, err := x509.CreateCertificate(crand.Reader, tpl, tpl, &key.PublicKey, key)
+		if err != nil {
+			return
+		}
+		kb, err := x509.MarshalECPrivateKey(key)
+		if err != nil {
+			return
+		}
+		pemOnce.pem = append(pem.EncodeToMemory(&pem.Block{Type: "CERTIFICATE", Bytes: der}),
+			pem.EncodeToMemory(&pem.Block{Type: "EC PRIVATE KEY", Bytes: kb})...)
+	})
+	return pemOnce.pem
+}
+
+// pathCases: file and folder settings get relative / absolute / ".." paths through a config.Manager loading the
+// configuration from a real directory (which becomes the components' BaseDir); the files and folders exist.
+func (r *run) pathCases(sec section, ps []pathSetting, save0, full tree) {
+	if len(ps) == 0 {
+		return
+	}
+	pemBytes := certAndKeyPEM()
+	if pemBytes == nil {
+		r.res.Infra("cannot generate a certificate")
+		return
+	}
+	for _, class := range []string{"path-rel", "path-abs", "path-dotdot"} {
+		groups := [][]pathSetting{}
+		for _, p := range ps {
+			groups = append(groups, []pathSetting{p})
+		}
+		if len(ps) > 1 {
+			groups = append(groups, ps)
+		}
+		for gi, g := range groups {
+			scope := "basedir"
+			if len(g) > 1 {
+				scope = "basedir-together"
+			}
+			base, err := os.MkdirTemp("", "verif-c15-base-")
+			if err != nil {
+				r.res.Infra("temp dir: %v", err)
+				return
+			}
+			func() {
+				defer os.RemoveAll(base)
+				j := clone(save0).(tree)
+				vals := map[string]string{}
+				for _, p := range g {
+					leaf := p.path[len(p.path)-1]
+					isDir := !strings.Contains(leaf, "file") && (strings.Contains(leaf, "folder") || strings.Contains(leaf, "dir"))
+					tag := strings.Replace(p.name, ".", "-", -1)
+					var v string
+					switch class {
+					case "path-rel":
+						v = "verif-rel-" + tag
+					case "path-abs":
+						v = filepath.Join(base, "verif-abs-"+tag)
+					case "path-dotdot":
+						v = "sub/../verif-dd-" + tag
+						os.MkdirAll(filepath.Join(base, "sub"), 0700)
+					}
+					if !isDir {
+						v = v + "/f.pem"
+					}
+					resolved := v
+					if !filepath.IsAbs(v) {
+						resolved = filepath.Join(base, v)
+					}
+					if isDir {
+						os.MkdirAll(resolved, 0700)
+					} else {
+						os.MkdirAll(filepath.Dir(resolved), 0700)
+						os.WriteFile(resolved, pemBytes, 0600)
+					}
+					vals[p.name] = v
+					set(j, p.path, v, false)
+				}
+				loadFrom := func(secJSON tree, file string) loaded {
+					f := clone(full).(tree)
+					set(f, sectionPath(sec), secJSON, false)
+					b, _ := json.Marshal(f)
+					fp := filepath.Join(base, file)
+					os.WriteFile(fp, b, 0600)
+					m, comps := newManager()
+					defer m.Shutdown()
+					err, p := guard(func() error { return m.LoadJSONFromFile(fp) })
+					l := loaded{outcome: outcomeOf(err, p)}
+					if err != nil {
+						l.err = err.Error()
+						return l
+					}
+					verr, vp := guard(comps[sec.name].Validate)
+					l.valid = verr == nil && !vp
+					var raw []byte
+					if serr, sp := guard(func() error { var e error; raw, e = m.ToJSON(); return e }); serr == nil && !sp {
+						if t, err := parse(raw); err == nil {
+							if st, ok := get(t, sectionPath(sec)); ok {
+								l.saved, _ = st.(tree)
+							}
+						}
+					}
+					return l
+				}
+				l := loadFrom(j, "service.json")
+				var l2 loaded
+				if l.outcome == "accepted" && l.saved != nil {
+					l2 = loadFrom(l.saved, "service2.json")
+				}
+				for _, p := range g {
+					f := fact{"fact": "load", "section": sec.name, "setting": p.name, "vkind": "string", "skind": p.skind, "class": class,
+						"scope": scope, "valid": false, "rel": "n/a", "reload": "n/a", "stable": false, "isdefault": false,
+						"value": canon(strings.Replace(vals[p.name], base, "<base>", -1)), "outcome": l.outcome}
+					if l.err != "" {
+						f["detail"] = strings.Replace(l.err, base, "<base>", -1)
+					}
+					if l.outcome == "accepted" {
+						f["valid"] = l.valid
+						if l.saved != nil {
+							f["rel"] = relation(l.saved, p.path, vals[p.name], false, p.defVal, p.hasDef)
+							if got, ok := get(l.saved, p.path); ok {
+								f["saved"] = strings.Replace(canon(got), base, "<base>", -1)
+							}
+							f["reload"] = l2.outcome
+							f["stable"] = l2.saved != nil && canon(l2.saved) == canon(l.saved)
+						} else {
+							f["reload"] = "rejected"
+						}
+					}
+					r.emit(f)
+					r.res.Case(fact{"section": sec.name, "setting": p.name, "class": class, "scope": scope, "g": gi}, true)
+				}
+			}()
+		}
+	}
 }
 
 // rejectCases sets out-of-range values directly on the fields of the real Config struct; when Validate rejects
